@@ -268,7 +268,7 @@ func runC14(r *Run) {
 		for _, c := range callsMatching(h, false, nameIs("field:cache.Config.CacheInvalidator")) {
 			for _, br := range ifsOnValue(h, c.Value()) {
 				if sl, ok := br.truthSlot(true); ok {
-					_, hit := reach(pointOfEdge(edge{br.If.Block(), sl}), isHit, nil, func(in ssa.Instruction) bool {
+					_, hit := reachEdge(edge{br.If.Block(), sl}, isHit, nil, func(in ssa.Instruction) bool {
 						st, ok := in.(*ssa.Store)
 						if !ok {
 							return false
